@@ -840,10 +840,340 @@ def _attr_literal(gp, attr):
     return None
 
 
+
+# ----------------------------------------------------------------------------
+# memo without invalidation (stale K_mm and friends)
+# ----------------------------------------------------------------------------
+XE = "ciderpress/dft/xc_evaluator.py"
+XE2 = "ciderpress/dft/xc_evaluator2.py"
+
+
+def _self_stores(fn):
+    """[(stmt, attr)] for stores into self.<attr> (assignment, augmented assignment, element store, del)"""
+    out = []
+    for st in pf.walk_no_nested(fn):
+        ts = []
+        if isinstance(st, ast.Assign):
+            for t in st.targets:
+                ts += list(t.elts) if isinstance(t, (ast.Tuple, ast.List)) else [t]
+        elif isinstance(st, (ast.AugAssign, ast.AnnAssign)):
+            ts = [st.target]
+        elif isinstance(st, ast.Delete):
+            ts = st.targets
+        for t in ts:
+            while isinstance(t, ast.Subscript):
+                t = t.value
+            if pf.is_self_attr(t):
+                out.append((st, t.attr))
+    return out
+
+
+def _attr_loads(prog, mod, cls, fn, depth=2, _seen=None):
+    """self attributes read by fn, through self.method()/property of the MRO (bounded depth)"""
+    _seen = _seen if _seen is not None else set()
+    out = set()
+    if id(fn) in _seen:
+        return out
+    _seen.add(id(fn))
+    for n in pf.walk_no_nested(fn):
+        if pf.is_self_attr(n) and isinstance(n.ctx, ast.Load):
+            r = prog.find_method(mod, cls, n.attr)
+            if r is not None:
+                if depth > 0:
+                    out |= _attr_loads(prog, mod, cls, r[2], depth - 1, _seen)
+            else:
+                out.add(n.attr)
+    return out
+
+
+def rule_memo(chk, prog):
+    targets = [(DK, "DFTKernel"), (DK, "DFTKernel2"), (TR, "MOLGP"), (TR, "MOLGP2")]
+    for rel, cname in targets:
+        mod = prog.module(rel)
+        cls = mod.cls(cname)
+        mro = prog.mro(mod, cls)
+        meths = {}
+        for m, c in mro:
+            for name, fn in pf.methods(c).items():
+                meths.setdefault(name, (m, c, fn))
+        data_attrs = set()
+        for name, (m, c, fn) in meths.items():
+            data_attrs |= {a for _, a in _self_stores(fn)}
+        for name, (m, c, fn) in sorted(meths.items()):
+            stores = [(st, a) for st, a in _self_stores(fn) if not isinstance(st, ast.Delete)]
+            assigned = {a for _, a in stores}
+            if not assigned or name == "__init__":
+                continue
+            g = None
+            for a in sorted(assigned):
+                served = [n for n in pf.walk_no_nested(fn) if isinstance(n, ast.Return) and pf.is_self_attr(n.value, a)]
+                if not served:
+                    continue
+                g = g or cfgm.CFG(fn)
+                a_nodes = {g.node_of(st).id for st, aa in stores if aa == a and g.node_of(st) is not None}
+
+                def is_assign(n, a_nodes=a_nodes):
+                    return n.id in a_nodes
+                memo_sites = []
+                for r in served:
+                    okp, wit = g.must_pass(is_assign, src=g.entry.id, dst=g.node_of(r).id)
+                    if not okp:
+                        memo_sites.append(r)
+                where = "%s.%s" % (cname, name)
+                if not memo_sites:
+                    chk.ok("memo-invalidate", "%s: self.%s is recomputed on every path before it is served (no memo)" % (where, a))
+                    continue
+                inputs = (_attr_loads(prog, mod, cls, fn) & data_attrs) - {a}
+                n_w = 0
+                for wname, (wm, wc, wfn) in sorted(meths.items()):
+                    if wfn is fn or wname == "__init__":
+                        continue
+                    wst = _self_stores(wfn)
+                    hit = [(st, b) for st, b in wst if b in inputs]
+                    if not hit:
+                        continue
+                    n_w += 1
+                    wg = cfgm.CFG(wfn)
+                    resets = {wg.node_of(st).id for st, b in wst if b == a and wg.node_of(st) is not None}
+                    recompute = {wg.stmt_of_expr(x).id for x in pf.walk_no_nested(wfn)
+                                 if isinstance(x, ast.Call) and pf.src(x.func) == "self.%s" % name and wg.stmt_of_expr(x)}
+
+                    def is_reset(n, resets=resets, recompute=recompute):
+                        return n.id in resets or n.id in recompute
+                    for st, b in hit:
+                        nd = wg.node_of(st)
+                        inst = "%s: %s.%s writes self.%s, an input of the memo self.%s" % (where, cname, wname, b, a)
+                        if nd is None:
+                            raise core.AnalysisError("%s: store to self.%s is not a CFG statement" % (wname, b))
+                        okp = wg.must_pass(is_reset, src=nd.id)[0] or wg.must_pass(is_reset, src=wg.entry.id, dst=nd.id)[0]
+                        if okp:
+                            chk.ok("memo-invalidate", inst + " and invalidates it")
+                        else:
+                            chk.violation(
+                                "memo-invalidate", wm.rel, "%s.%s" % (wc.name, wname), pf.src(st), st.lineno,
+                                "%s serves the cached self.%s (`%s`) computed from self.%s; %s changes self.%s but "
+                                "neither resets self.%s nor recomputes it: the next %s() returns the value of the "
+                                "previous %s (fit then pairs a stale K_mm with fresh K_mn)"
+                                % (where, a, pf.src(memo_sites[0]).split("\n")[0][:70], ", self.".join(sorted(inputs)),
+                                   wname, b, a, name, b), instance=inst)
+                # writers outside the class (train.py setting attributes of kernel objects)
+                for orel in (TR, DK):
+                    omod = prog.module(orel)
+                    for n in ast.walk(omod.ast):
+                        if isinstance(n, ast.Assign):
+                            for t in n.targets:
+                                if isinstance(t, ast.Attribute) and t.attr in inputs and isinstance(t.value, ast.Name) \
+                                        and t.value.id not in ("self",) and rel == DK:
+                                    fn2 = pf.enclosing_func(n)
+                                    body = pf.src(fn2) if fn2 else ""
+                                    inst = "%s: external store %s" % (where, pf.src(t))
+                                    if "%s.%s = " % (t.value.id, a) in body or "%s.%s(" % (t.value.id, name) in body:
+                                        chk.ok("memo-invalidate", inst + " followed by a reset")
+                                    else:
+                                        chk.violation("memo-invalidate", orel, pf.qualname(fn2) if fn2 else "<module>",
+                                                      pf.src(n), n.lineno,
+                                                      "writes %s, an input of the memo %s.%s, without resetting it"
+                                                      % (pf.src(t), cname, a), instance=inst)
+                chk.ok("memo-invalidate", "%s: memo self.%s over inputs {%s}: %d writer method(s) examined"
+                       % (where, a, ", ".join(sorted(inputs)), n_w), nontrivial=False)
+
+
+# ----------------------------------------------------------------------------
+# sibling loops over the systems of one reaction iterate the same (structs, counts) pairing
+# ----------------------------------------------------------------------------
+LOSSY = {"dict", "set", "frozenset", "collections.OrderedDict", "OrderedDict", "Counter", "collections.Counter"}
+NEUTRAL = {"list", "tuple", "iter"}
+
+
+def _inline(e, env, depth=4):
+    """copy of e with single-assignment locals replaced by their definitions"""
+    class T(ast.NodeTransformer):
+        def visit_Name(self, n):
+            if isinstance(n.ctx, ast.Load) and n.id in env and depth > 0:
+                return _inline(env[n.id], env, depth - 1)
+            return n
+    import copy
+    return T().visit(copy.deepcopy(e))
+
+
+def _strip_neutral(e):
+    while isinstance(e, ast.Call) and pf.call_name(e) in NEUTRAL and len(e.args) == 1 and not e.keywords:
+        e = e.args[0]
+    return e
+
+
+def rule_pairing(chk, gp):
+    add = gp.method("add_reactions")
+    cname = gp.cls.name
+    params = {a.arg for a in add.args.args}
+    loops = [st for st in add.body if isinstance(st, ast.For) and isinstance(st.iter, ast.Name) and st.iter.id in params]
+    if len(loops) != 1:
+        raise core.AnalysisError("add_reactions: the reaction loop was not found")
+    loop = loops[0]
+    rvars = {n.id for n in ast.walk(loop.target) if isinstance(n, ast.Name)}
+    # single-assignment locals of the loop body
+    counts = {}
+    for x in pf.walk_no_nested(loop):
+        if isinstance(x, ast.Assign):
+            for t in x.targets:
+                if isinstance(t, ast.Name):
+                    counts.setdefault(t.id, []).append(x.value)
+        elif isinstance(x, (ast.AugAssign, ast.For)):
+            for n in ast.walk(x.target):
+                if isinstance(n, ast.Name):
+                    counts.setdefault(n.id, []).append(None)
+    env = {k: v[0] for k, v in counts.items() if len(v) == 1 and v[0] is not None}
+    sys_loops = []
+    for x in pf.walk_no_nested(loop):
+        if x is loop or not isinstance(x, ast.For):
+            continue
+        it = _strip_neutral(_inline(x.iter, env))
+        names = {n.id for n in ast.walk(it) if isinstance(n, ast.Name)}
+        subs = {n.slice.value for n in ast.walk(it) if isinstance(n, ast.Subscript) and isinstance(n.value, ast.Name)
+                and n.value.id in rvars and isinstance(n.slice, ast.Constant)}
+        if not (names & rvars) or not subs:
+            continue  # not a loop over data of this reaction (e.g. the kernel loops)
+        sys_loops.append((x, it, subs))
+    if len(sys_loops) < 2:
+        raise core.AnalysisError("add_reactions: fewer than two loops over the systems of a reaction")
+    # siblings = loops that walk the system ids of the reaction: the most common key of the reaction dict
+    # among these loops (today "structs") defines the family; every loop using it must iterate the same pairing
+    freq = {}
+    for x, it, subs in sys_loops:
+        for k in subs:
+            freq[k] = freq.get(k, 0) + 1
+    idkey = sorted(freq.items(), key=lambda kv: (-kv[1], kv[0] != "structs", kv[0]))[0][0]
+    by_keys = {}
+    for x, it, subs in sys_loops:
+        if idkey in subs:
+            by_keys.setdefault(frozenset([idkey]), []).append((x, it))
+    for keys, group in sorted(by_keys.items(), key=lambda kv: sorted(kv[0])):
+        forms = {}
+        for x, it in group:
+            # role binding: loop target names -> zip arguments when the iterable is a plain zip
+            if isinstance(it, ast.Call) and pf.call_name(it) == "zip" and isinstance(x.target, ast.Tuple) \
+                    and len(x.target.elts) == len(it.args) and all(isinstance(e, ast.Name) for e in x.target.elts):
+                form = "zip{%s}" % ", ".join(sorted("%s<-%s" % (e.id, pf.src(a)) for e, a in zip(x.target.elts, it.args)))
+            else:
+                form = pf.src(it)
+            forms.setdefault(form, []).append(x)
+        major = max(forms.items(), key=lambda kv: (len(kv[1]), "zip{" in kv[0]))[0]
+        tag = "%s.add_reactions: loops over %s of one reaction" % (cname, "/".join(sorted(keys)))
+        if len(forms) == 1:
+            chk.ok("pairing", tag + " all iterate %s (%d loops)" % (major, len(group)))
+            continue
+        for form, xs in sorted(forms.items()):
+            if form == major:
+                chk.ok("pairing", tag + ": %d loop(s) iterate %s" % (len(xs), form), nontrivial=False)
+                continue
+            lossy = [n for n in ast.walk(ast.parse(form.replace("zip{", "zip(").replace("}", ")").replace("<-", "=="), mode="eval"))
+                     if isinstance(n, ast.Call) and pf.call_name(n) in LOSSY] if "zip{" not in form else []
+            for x in xs:
+                chk.violation("pairing", TR, cname + ".add_reactions", "for %s in %s" % (pf.src(x.target), pf.src(x.iter)),
+                              x.lineno,
+                              "this loop assembles part of the label/covariance row of a reaction from `%s`, while the "
+                              "%d sibling loops of the same reaction iterate `%s`%s: label, covariance row and "
+                              "baselines are then sums over different (system, count) pairs"
+                              % (form, len(forms[major]), major,
+                                 " (a %s built from the pairs keeps one count per system id, so repeated ids collapse)"
+                                 % pf.call_name(lossy[0]) if lossy else ""),
+                              instance=tag + " :: " + form)
+
+
+# ----------------------------------------------------------------------------
+# snapshots stored on self before an in-place rescaling of their source
+# ----------------------------------------------------------------------------
+def rule_snapshot(chk, gp):
+    fit = gp.method("fit")
+    cname = gp.cls.name
+    where = cname + ".fit"
+    g = cfgm.CFG(fit)
+    defs = {}
+    for x in pf.walk_no_nested(fit):
+        if isinstance(x, ast.Assign):
+            for t in x.targets:
+                for tt in (t.elts if isinstance(t, (ast.Tuple, ast.List)) else [t]):
+                    if isinstance(tt, ast.Name):
+                        defs.setdefault(tt.id, []).append(x.value)
+        elif isinstance(x, ast.AugAssign) and isinstance(x.target, ast.Name):
+            defs.setdefault(x.target.id, []).append(x.value)
+
+    def sources(e):
+        seen, todo = set(), [n.id for n in ast.walk(e) if isinstance(n, ast.Name)]
+        while todo:
+            nm = todo.pop()
+            if nm in seen:
+                continue
+            seen.add(nm)
+            for v in defs.get(nm, []):
+                todo += [n.id for n in ast.walk(v) if isinstance(n, ast.Name)]
+        return seen
+    # in-place updates of local arrays
+    updates = []
+    for x in pf.walk_no_nested(fit):
+        if isinstance(x, ast.AugAssign) and isinstance(x.target, ast.Subscript):
+            r = pf.base_name(x.target)
+            if r and r != "self":
+                updates.append((x, r))
+        elif isinstance(x, ast.Assign):
+            for t in x.targets:
+                if isinstance(t, ast.Subscript) and pf.base_name(t) not in (None, "self"):
+                    updates.append((x, pf.base_name(t)))
+    stores = [(st, a) for st, a in _self_stores(fit) if isinstance(st, ast.Assign)]
+    info = {}
+    for st, a in stores:
+        src = sources(st.value)
+        later = [(u, r) for u, r in updates if r in src and reaches_cfg(g, g.node_of(st).id, g.node_of(u).id)]
+        earlier = [(u, r) for u, r in updates if r in src and reaches_cfg(g, g.node_of(u).id, g.node_of(st).id)]
+        alias = isinstance(st.value, ast.Name)
+        info[a] = (st, later, earlier, alias)
+    readers = {}
+    for m, c in gp.prog.mro(gp.mod, gp.cls):
+        for name, fn in pf.methods(c).items():
+            if fn is fit:
+                continue
+            readers.setdefault(name, {x.attr for x in ast.walk(fn) if pf.is_self_attr(x) and isinstance(x.ctx, ast.Load)})
+    for a, (st, later, earlier, alias) in sorted(info.items()):
+        inst = "%s: self.%s is stored after every in-place update of the arrays it is derived from" % (where, a)
+        if not later or alias:
+            chk.ok("fit-snapshot", inst, nontrivial=bool(earlier))
+            continue
+        u, r = later[0]
+        blk = pf.enclosing(u, (ast.If,))
+        # attributes stored after an update of the same rescaling block
+        post = [b for b, (st2, l2, e2, al2) in info.items() if b != a and any(pf.enclosing(u2, (ast.If,)) is blk for u2, _ in e2)]
+        co = sorted({name for name, rd in readers.items() if a in rd and any(b in rd for b in post)})
+        if co:
+            chk.violation("fit-snapshot", TR, where, pf.src(st), st.lineno,
+                          "self.%s is a copy derived from `%s` taken BEFORE `%s` rescales it in place, while self.%s "
+                          "are stored after that rescaling; %s() combines them as if they described the same "
+                          "hyper-parameters, so after fit(x=...) the reported quantity no longer belongs to the "
+                          "system that was solved" % (a, r, pf.src(u), "/self.".join(sorted(post)), ", ".join(co)),
+                          instance=inst)
+        else:
+            chk.ok("fit-snapshot", inst + " (pre-update copy, never combined with post-update state)", nontrivial=False)
+            chk.note("fit-snapshot", where, "self.%s keeps a copy of `%s` from before `%s`" % (a, r, pf.src(u)))
+
+
+def reaches_cfg(g, a, b):
+    seen, todo = set(), list(g.succ[a])
+    while todo:
+        u = todo.pop()
+        if u in seen:
+            continue
+        seen.add(u)
+        if u == b:
+            return True
+        todo.extend(g.succ[u])
+    return False
+
 # ----------------------------------------------------------------------------
 def analyse(chk):
-    prog = pf.Program(chk.tree, [TR, DK])
+    prog = pf.Program(chk.tree, [TR, DK, XE, XE2])
     mod = prog.module(TR)
+    chk.rule("memo-invalidate", "a cached attribute served under a guard is reset by every method that writes one of its inputs")
+    chk.rule("pairing", "sibling loops over the systems of one reaction iterate the same (structs, counts) pairing")
+    chk.rule("fit-snapshot", "state stored by fit is not a pre-rescaling copy later combined with post-rescaling state")
     chk.rule("reset-append", "containers read by fit == appended by add_reactions ⊆ emptied by reset_reactions")
     chk.rule("row-once", "exactly one append per container per reaction on every non-raising path")
     chk.rule("fit-system", "fit assembles sum_k Knm Kmm^-1 Kmn + diag(noise**2) (+ eps I) against rxn_ref_list")
@@ -861,6 +1191,9 @@ def analyse(chk):
         if res:
             chk.guard(rule_row_once, gp, res[0])
         chk.guard(rule_fit, gp)
+        chk.guard(rule_pairing, gp)
+        chk.guard(rule_snapshot, gp)
+    chk.guard(rule_memo, prog)
     # the kernel objects start with an empty list too
     dk = prog.module(DK)
     for cname in ("DFTKernel", "DFTKernel2"):
@@ -873,6 +1206,9 @@ def analyse(chk):
             chk.note("reset-append", DK, "%s.__init__ does not create rxn_cov_list; MOLGP.__init__ resets it" % cname)
     chk.floor("reset-append", 5, "partition + 3 containers + __init__")
     chk.floor("row-once", 4, "rxn_ref_list, rxn_noise_list, rxn_cov_list of xkernels and of ckernels")
+    chk.floor("memo-invalidate", 1, "DFTKernel.get_kctrl computes and returns self.Kmm")
+    chk.floor("pairing", 1, "six loops over zip(rxn['structs'], rxn['counts'])")
+    chk.floor("fit-snapshot", 4, "Kcov_, K_, alpha_mol_, y_mol_")
     chk.floor("fit-system", 7, "loop, +=, order, labels, noise, 2 regularisers")
     chk.assumptions += [
         "rxn_* lists are only grown by MOLGP.add_reactions and emptied by MOLGP.reset_reactions "
@@ -884,6 +1220,44 @@ def analyse(chk):
         "content of the labels (baselines, stoichiometric counts, units) and of the covariance rows",
         "permutation invariance with respect to the order of reactions (follows from row alignment only)",
     ]
+
+
+
+def _seed_memo(also_set_kernel):
+    def fn(text):
+        a = "        self.X1ctrl = X1\n\n    def get_kctrl(self):"
+        b = '        if self.mode == "POL":\n            kaa = self.kernel(self.X1ctrl[0], self.X1ctrl[0])'
+        if a not in text or b not in text or "    def set_kernel(self, kernel):\n        self.kernel = kernel\n" not in text:
+            return None
+        text = text.replace(a, "        self.X1ctrl = X1\n        self.Kmm = None\n\n    def get_kctrl(self):")
+        text = text.replace(b, "        if getattr(self, 'Kmm', None) is not None and self.Kmm.shape[0] == self.Nctrl:\n"
+                               "            return self.Kmm\n" + b, 1)
+        if also_set_kernel:
+            text = text.replace("    def set_kernel(self, kernel):\n        self.kernel = kernel\n",
+                                "    def set_kernel(self, kernel):\n        self.kernel = kernel\n        self.Kmm = None\n")
+        return text
+    return fn
+
+
+def _seed_memo_lazy(text):
+    a = "        self.Kmm = k\n        return self.Kmm\n"
+    b = '        if self.mode == "POL":\n            kaa = self.kernel(self.X1ctrl[0], self.X1ctrl[0])'
+    c = "    def set_kernel(self, kernel):\n        self.kernel = kernel\n"
+    if a not in text or b not in text or c not in text:
+        return None
+    text = text.replace(b, "        if getattr(self, 'Kmm', None) is None:\n            self.Kmm = self._kctrl()\n"
+                           "        return self.Kmm\n\n    def _kctrl(self):\n" + b, 1)
+    text = text.replace(a, "        return k\n")
+    return text.replace(c, c + "        self.Kmm = None\n")
+
+
+def _seed_snapshot(text):
+    a = "        noise_nn = noise_nn**2  # get noise covariance from noise std deviation\n"
+    b = "        noise = (sigma_min + x[1] ** 2) * (self.K_ - self.Kcov_)\n"
+    if a not in text or b not in text:
+        return None
+    text = text.replace(a, a + "        self.Knoise_ = np.diag(noise_nn + self.numerical_epsilon)\n")
+    return text.replace(b, "        noise = (sigma_min + x[1] ** 2) * self.Knoise_\n")
 
 
 def mutants(tree):
@@ -913,6 +1287,21 @@ def mutants(tree):
                "            self.rxn_ref_list.append(rxn_ref)\n",
                "            self.rxn_ref_list.append(rxn_ref)\n            if rxn_ref == 0:\n                continue\n",
                expect="row-once"),
+        Mutant("Kmm memo not invalidated by set_kernel", DK, fn=_seed_memo(False), expect="memo-invalidate"),
+        Mutant("lazy Kmm memo (if None) not invalidated by set_control_points", DK, fn=_seed_memo_lazy, expect="memo-invalidate"),
+        Mutant("KS baseline loop over dict(zip(...))", TR,
+               '                for sysid, count in zip(rxn["structs"], rxn["counts"]):\n                    rxn_ref -= count * self.ks_baseline_dict[sysid]',
+               '                stoich = dict(zip(rxn["structs"], rxn["counts"]))\n                for sysid, count in stoich.items():\n                    rxn_ref -= count * self.ks_baseline_dict[sysid]',
+               expect="pairing"),
+        Mutant("reference loop pairs structs with another list", TR,
+               '                for sysid, count in zip(rxn["structs"], rxn["counts"]):\n                    if isinstance(sysid, tuple):\n                        rxn_ref += count * self.dexx_ref_dict',
+               '                for sysid, count in zip(rxn["structs"], rxn["weights"]):\n                    if isinstance(sysid, tuple):\n                        rxn_ref += count * self.dexx_ref_dict',
+               expect="pairing"),
+        Mutant("covariance loop over the set of pairs", TR,
+               '                    for sysid, count in zip(rxn["structs"], rxn["counts"]):\n                        if isinstance(sysid, tuple):\n                            rxn_cov += count * kernel.dcov_dict',
+               '                    for sysid, count in set(zip(rxn["structs"], rxn["counts"])):\n                        if isinstance(sysid, tuple):\n                            rxn_cov += count * kernel.dcov_dict',
+               expect="pairing"),
+        Mutant("noise block snapshot before the rescaling", TR, fn=_seed_snapshot, expect="fit-snapshot"),
         Mutant("noise not squared", TR, "        noise_nn = noise_nn**2  # get noise covariance from noise std deviation\n", "",
                expect="fit-system"),
         Mutant("noise squared twice", TR, "K = Knmimn + np.diag(noise_nn)", "K = Knmimn + np.diag(noise_nn**2)",
